@@ -3,7 +3,7 @@ from reg._common import COMMON_ASSUME
 
 ENTRY = {
     'extractors': ['translate_py.py', 'translate_f90.py'],
-    'lean_files': ['Tables/SrcPyPipeline.lean', 'Tables/SrcF90Triangle.lean', 'Tables/SrcPyTriangle.lean', 'Tables/SrcPyNewton.lean', 'Tables/SrcF90Pipeline.lean', 'Tables/SrcPyKernels.lean', 'Tables/SrcF90Kernels.lean', 'Props/C11.lean', 'Props/C11Triangle.lean', 'Props/C11Rounding.lean'],
+    'lean_files': ['Tables/SrcPyCurve.lean', 'Tables/SrcPyPipeline.lean', 'Tables/SrcF90Triangle.lean', 'Tables/SrcPyTriangle.lean', 'Tables/SrcPyNewton.lean', 'Tables/SrcF90Pipeline.lean', 'Tables/SrcPyKernels.lean', 'Tables/SrcF90Kernels.lean', 'Props/C11.lean', 'Props/C11Triangle.lean', 'Props/C11Rounding.lean'],
     'lemma_files': ['Lemmas/RoundingDeriv.lean', 'Lemmas/RoundingMore.lean', 'Lemmas/Rounding.lean', 'Lemmas/TriRounding.lean', 'Lemmas/TriDeriv.lean', 'Model/TriDeriv.lean', 'Model/Triangle.lean', 'Lemmas/Deriv.lean', 'Lemmas/Shift.lean', 'Lemmas/Bridge.lean', 'Lemmas/VS.lean', 'Lemmas/Elevate.lean',
                     'Lemmas/Subdivide.lean', 'Model/Basic.lean', 'Model/Curve.lean'],
     'script': 'props/c11.py',
